@@ -321,7 +321,10 @@ def widen_if_needed(ctx, plugin, a):
         changed = ["<pins unreadable: %r>" % (e,)]
     ctx.extra["anchored_sources_changed_since_validation"] = changed
     forced = os.environ.get("VERIF_FORCE_WIDEN") == "1"     # validation of the widened generators on the unchanged tree
-    if ctx.violations or not (ctx.proof_problems or ctx.corr_diffs or changed or forced):
+    # hits of registered known findings do not count as "a failing input was found": they must not switch the search off
+    ksigs = {k["signature"] for k in load_known().get("findings", []) if k.get("property") == ctx.pid}
+    unknown = [v for v in ctx.violations if v[0] not in ksigs]
+    if unknown or not (ctx.proof_problems or ctx.corr_diffs or changed or forced):
         return
     try:
         import random as _r
